@@ -112,10 +112,9 @@ Definition mbind {A B} (x : M A) (f : A -> M B) : M B :=
   fun ds => match x ds with Ok (a, ds') => f a ds' | Err => Err | Panic => Panic | NoDraw => NoDraw end.
 Notation "'let+' x ':=' e 'in' k" := (mbind e (fun x => k))
   (at level 200, x pattern, e at level 100, k at level 200, right associativity).
+Definition mpanic {A} : M A := fun _ => Panic.
 Definition lift {A} (x : outcome A) : M A :=
   fun ds => match x with Ok a => Ok (a, ds) | Err => Err | Panic => Panic | NoDraw => NoDraw end.
-Definition mpanic {A} : M A := fun _ => Panic.
-
 Fixpoint zlist_eqb (a b : list Z) : bool :=
   match a, b with
   | [], [] => true
@@ -128,11 +127,12 @@ Definition draw_req (kind : N) (params : list Z) : M Z :=
             | d :: r => if (N.eqb (d_kind d) kind && zlist_eqb (d_params d) params)%bool
                         then Ok (d_val d, r) else NoDraw
             end.
-Definition random_bits (n : Z) : M Z := draw_req 0 [n].
-Definition random_number (n : Z) : M Z := draw_req 1 [n].
+(* random_bits(0) underflows n - 1; random_below panics on a non-positive bound *)
+Definition random_bits (n : Z) : M Z := if n <=? 0 then mpanic else draw_req 0 [n].
+Definition random_number (n : Z) : M Z := if n <=? 0 then mpanic else draw_req 1 [n].
 (* random_prime(n) = random_bits(n).next_prime(): both the inner draw and the result are logged *)
-Definition random_prime (n : Z) : M Z := let+ _ := draw_req 0 [n] in draw_req 2 [n].
-Definition rand_int (a b : Z) : M Z := draw_req 3 [a; b].
+Definition random_prime (n : Z) : M Z := let+ _ := random_bits n in draw_req 2 [n].
+Definition rand_int (a b : Z) : M Z := if b <? a then mpanic else draw_req 3 [a; b].
 
 (* rejection loops: every iteration consumes at least one draw, so the number of draws left is enough fuel *)
 Fixpoint loop_fuel {A} (fuel : nat) (body : M (option A)) : M A :=
